@@ -44,6 +44,7 @@ WITH THE SOFTWARE OR THE USE OR OTHER DEALINGS IN THE SOFTWARE.
 #include <smtsolvers/TheoryInterpolator.h>
 #include <api/PartitionManager.h>
 
+#include <random>
 #include <set>
 
 namespace opensmt {
@@ -128,6 +129,10 @@ public:
     void printAsDotty(std::ostream &);
 
 private:
+    // Own generator for the randomised interpolation choices: the process-wide rand() is shared with every other solver instance
+    mutable std::minstd_rand randomGenerator;
+    unsigned nextRandom() const { return randomGenerator(); }
+
     icolor_t getLitColor(PTRef term) const {
         assert(litColors.find(term) != litColors.end());
         return litColors.at(term);
